@@ -47,7 +47,14 @@ def main():
             out.extra['coqchk'] = ck
             if not ck['ok']:
                 out.broken.append('coqchk: ' + ck['summary'][-600:])
-        mod.run(out)
+        try:
+            mod.run(out)
+        except core.InfraError:
+            raise
+        except Exception:  # noqa: BLE001
+            # The runs themselves fell over.  On the unchanged tree they do not, so what fell over is the code under test behaving in a way
+            # the harness did not foresee: the property is not shown for this tree (decision rule (a)); the traceback goes into the replay.
+            out.broken.append('the runs against this tree could not be completed: ' + traceback.format_exc()[-1800:])
         return core.finish(out)
     except core.InfraError as e:
         print('INFRASTRUCTURE ERROR (not a verdict): %s' % e)
